@@ -474,6 +474,136 @@ fn cli_rss(ctx: &Ctx) {
     let _ = hex(&[]);
 }
 
+/// Incremental output of the real binary, observed without timing: the tool reads a large REGULAR FILE
+/// and writes to a stdout pipe that nobody reads. Once it is blocked on that pipe (state 'S', input offset
+/// unchanged across two looks), the offset of its input descriptor (/proc/PID/fdinfo) says how much input it
+/// had consumed while at most one pipe-full (64 KiB) of output existed.
+fn cli_stalled_stdout(ctx: &Ctx) {
+    use std::process::{Command, Stdio};
+    let mut rng = Rng::fork(ctx.seed, "C11-stall");
+    let alice = Ident::new("alice", "apw", &mut rng);
+    let bob = Ident::new("bob", "bpw", &mut rng);
+    let wd = WorkDir::new("c11s");
+    wd.write("kr.txt", crate::cli::keyring_text(&[(&alice, true), (&bob, true)]).as_bytes());
+    let n: usize = ctx.tier.pick(64 << 20, 256 << 20);
+    let pt: Vec<u8> = (0..n).map(|i| GenReader::byte_at(i as u64)).collect();
+    let chunking = refspec::natural_chunking(n, 65536);
+    wd.write("big.bin", &pt);
+    wd.write("big-k.ktl", &refspec::encode_key_file(&alice.sk, &alice.pk, &bob.pk, &rng.arr32(), &rng.arr32(), &pt, &chunking).unwrap());
+    wd.write("big-p.ktl", &refspec::encode_pass_file(b"ppw", &rng.arr32(), &pt, &chunking));
+    let rec = 65536u64 + 32;
+    // (what, argv, password, input file, bound on input consumed while blocked on the first pipe-full of output)
+    let cases: Vec<(&str, Vec<&str>, &str, &str, u64)> = vec![
+        ("key decrypt, FILE -> stdout", vec!["decrypt", "big-k.ktl", "-t", "bob", "-k", "kr.txt", "--env-pass"], "bpw", "big-k.ktl", 132 + 4 * rec + 8192),
+        ("password decrypt, FILE -> stdout", vec!["password", "decrypt", "big-p.ktl", "--env-pass"], "ppw", "big-p.ktl", 36 + 4 * rec + 8192),
+        ("key encrypt, FILE -> stdout", vec!["encrypt", "big.bin", "-t", "bob", "-f", "alice", "-k", "kr.txt", "--env-pass"], "apw", "big.bin", 3 * 65536 + 8192),
+        ("password encrypt, FILE -> stdout", vec!["password", "encrypt", "big.bin", "--env-pass"], "ppw", "big.bin", 3 * 65536 + 8192),
+    ];
+    for (what, args, pw, input, bound) in cases {
+        let mut c = Command::new("/usr/bin/setsid");
+        c.arg("-w").arg(crate::cli::kestrel_bin()).args(&args).env_clear().env("KESTREL_PASSWORD", pw).current_dir(&wd.path).stdin(Stdio::null()).stdout(Stdio::piped()).stderr(Stdio::piped());
+        let mut child = match c.spawn() {
+            Ok(ch) => ch,
+            Err(e) => {
+                ctx.inconclusive(&format!("C11 stall lane: spawn failed: {}", e));
+                continue;
+            }
+        };
+        let want = std::fs::canonicalize(wd.file(input)).unwrap_or_else(|_| wd.file(input));
+        let pid = child.id();
+        // the process that holds the input open: the child itself or (if the launcher forked) one of its children
+        let find = |pid: u32| -> Option<(u32, String)> {
+            let mut pids = vec![pid];
+            if let Ok(t) = std::fs::read_to_string(format!("/proc/{}/task/{}/children", pid, pid)) {
+                pids.extend(t.split_whitespace().filter_map(|x| x.parse::<u32>().ok()));
+            }
+            for p in pids {
+                if let Ok(rd) = std::fs::read_dir(format!("/proc/{}/fd", p)) {
+                    for e in rd.flatten() {
+                        if std::fs::read_link(e.path()).map(|l| l == want).unwrap_or(false) {
+                            return Some((p, e.file_name().to_string_lossy().into_owned()));
+                        }
+                    }
+                }
+            }
+            None
+        };
+        let pos_of = |p: u32, fd: &str| -> Option<u64> { std::fs::read_to_string(format!("/proc/{}/fdinfo/{}", p, fd)).ok()?.lines().find_map(|l| l.strip_prefix("pos:").and_then(|v| v.trim().parse().ok())) };
+        let state_of = |p: u32| -> Option<char> { std::fs::read_to_string(format!("/proc/{}/stat", p)).ok().and_then(|t| t.rsplit(") ").next().and_then(|r| r.chars().next())) };
+        let t0 = std::time::Instant::now();
+        let mut reading: Option<u64> = None;
+        let mut last: Option<(u64, std::time::Instant)> = None;
+        let mut max_pos = 0u64;
+        let mut looks = 0u64;
+        let mut holder: Option<(u32, String)> = None;
+        while t0.elapsed() < std::time::Duration::from_secs(20) {
+            std::thread::sleep(std::time::Duration::from_micros(500));
+            if holder.is_none() {
+                holder = find(pid);
+            }
+            if let Some((p, fd)) = &holder {
+                match pos_of(*p, fd) {
+                    Some(pos) => {
+                        looks += 1;
+                        // the largest offset ever seen counts (a tool may run ahead and seek back)
+                        max_pos = max_pos.max(pos);
+                        // blocked = sleeping, has consumed something, offset unchanged for 300 ms
+                        match last {
+                            Some((lp, since)) if lp == pos => {
+                                if pos > 0 && since.elapsed() > std::time::Duration::from_millis(300) && state_of(*p) == Some('S') {
+                                    reading = Some(max_pos);
+                                    break;
+                                }
+                            }
+                            _ => last = Some((pos, std::time::Instant::now())),
+                        }
+                    }
+                    None => holder = None,
+                }
+            }
+            if holder.is_none() && child.try_wait().map(|s| s.is_some()).unwrap_or(true) {
+                break;
+            }
+        }
+        let _ = looks;
+        // release the child: drain its output, then collect it
+        let mut out = child.stdout.take().unwrap();
+        let mut err = child.stderr.take().unwrap();
+        let et = std::thread::spawn(move || {
+            let mut v = Vec::new();
+            let _ = err.read_to_end(&mut v);
+            v
+        });
+        let mut total = 0u64;
+        let mut buf = vec![0u8; 1 << 20];
+        while let Ok(k) = out.read(&mut buf) {
+            if k == 0 {
+                break;
+            }
+            total += k as u64;
+        }
+        let status = child.wait();
+        let ok_exit = status.as_ref().map(|s| s.success()).unwrap_or(false);
+        let stderr = String::from_utf8_lossy(&et.join().unwrap_or_default()).into_owned();
+        ctx.eval();
+        let case = || json!({"case": what, "argv": args, "input_bytes": std::fs::metadata(&want).map(|m| m.len()).unwrap_or(0), "largest_input_offset_seen_up_to_the_moment_it_blocked_on_the_first_pipe_full_of_output": reading, "offset_samples_taken": looks, "bound": bound, "output_bytes_after_release": total, "exit": format!("{:?}", status), "stderr": stderr});
+        match reading {
+            None => ctx.inconclusive(&format!("C11 stall lane ({}): the child was never seen blocked on its output with the input open", what)),
+            Some(pos) if pos > bound => ctx.violation(&format!("C11:cli:{}:input-consumed-far-ahead-of-the-output", what.split(',').next().unwrap_or("").replace(' ', "-")), case()),
+            Some(pos) => {
+                if !ok_exit {
+                    ctx.violation(&format!("C11:cli:{}:large-stream-failed", what), case());
+                } else {
+                    ctx.seen(&format!("cli {}: blocked on a full stdout pipe after consuming {} bytes of a {} MiB file", what, pos, n >> 20));
+                    ctx.seen("cli: input offset while stdout is stalled stays within two chunks of the output");
+                    ctx.distinct(&format!("stall|{}", what));
+                    ctx.sample("stalled stdout", 2, || case());
+                }
+            }
+        }
+    }
+}
+
 pub fn run(ctx: &Ctx) {
     ctx.rule(
         "each execution streams n chunks from a generator (no backing buffer) through the real encryptor in one thread into a fixed ring buffer and through the real decryptor in \
@@ -485,6 +615,8 @@ pub fn run(ctx: &Ctx) {
     ctx.assume("harness allocations on the measured threads are constant-size (ring buffer pre-allocated, generator and sinks allocation-free)");
     in_process(ctx);
     cli_rss(ctx);
+    cli_stalled_stdout(ctx);
+    ctx.require("cli: input offset while stdout is stalled stays within two chunks of the output", 3);
     ctx.require("streams within memory and lag bounds", 8);
     ctx.require("stream read in thousands of distinct sizes", 2);
     ctx.require("cli ", 3);
